@@ -6,6 +6,7 @@ CONSTANTS
   MAXU = 3
   OBJS = {"a", "s"}
   PROP = "C07"
+  PERT = {1}
 SPECIFICATION Spec
 INVARIANTS C07 C02 C03 NoJunk EmitReplay
 CHECK_DEADLOCK FALSE
